@@ -33,6 +33,13 @@ InsertSorted(s, x) == IF s = <<>> THEN <<x>>
                       ELSE IF Ord(x.k) < Ord(Head(s).k) THEN <<x>> \o s ELSE <<Head(s)>> \o InsertSorted(Tail(s), x)
 SortSlots(m) == IF m = <<>> THEN <<>> ELSE InsertSorted(SortSlots(Tail(m)), Head(m))
 
+\* stable sort by the key "value mod 3" (of a slot when slot = TRUE, of an integer otherwise)
+Key3(x, slot) == IF slot THEN x.v % 3 ELSE x % 3
+RECURSIVE InsertStable(_, _, _), StableSort3(_, _)
+InsertStable(s, x, slot) == IF s = <<>> THEN <<x>>
+                            ELSE IF Key3(x, slot) < Key3(Head(s), slot) THEN <<x>> \o s ELSE <<Head(s)>> \o InsertStable(Tail(s), x, slot)
+StableSort3(s, slot) == IF s = <<>> THEN <<>> ELSE InsertStable(StableSort3(SubSeq(s, 1, Len(s) - 1), slot), s[Len(s)], slot)
+
 IsSortedKind(kind) == kind = "map_sorted"
 NormKind(kind, m) == IF IsSortedKind(kind) THEN SortSlots(m) ELSE m
 
@@ -72,6 +79,8 @@ MapApply(kind, m0, o) ==
                {R(SelectSeq(m, LAMBDA s : s.k \in o.ks), 0 - 1),
                 R(SelectSeq(m, LAMBDA s : s.k \in o.ks \/ s.v = 0), 0 - 1)}
           [] o.op = "sort_values" -> {R(SortSlots(m), 0 - 1)}
+          \* sort_values_by with a comparator that looks at value mod 3 only: the sort is stable
+          [] o.op = "sort_values_by_mod3" -> {R(StableSort3(m, TRUE), 0 - 1)}
           [] o.op = "clear" -> {R(<<>>, 0 - 1)}
           [] o.op = "get" -> {R(m, cur)}
           [] o.op = "contains_key" -> {R(m, Bool(cur # 0))}
@@ -107,6 +116,7 @@ SeqApply(s, o) ==
     [] o.op = "clear" -> {R(<<>>, 0 - 1)}
     [] o.op = "get_at" -> {R(s, IF o.i + 1 <= Len(s) THEN s[o.i + 1] ELSE 0)}
     [] o.op = "extend" -> {R(s \o <<o.v, o.v2>>, 0 - 1)}
+    [] o.op \in {"sort_by_key_mod3", "sort_by_mod3"} -> {R(StableSort3(s, FALSE), 0 - 1)}
 SeqEnabled(s, o) ==
   CASE o.op = "insert_at" -> o.i <= Len(s)
     [] o.op \in {"replace", "remove_at"} -> o.i + 1 <= Len(s)
